@@ -116,6 +116,8 @@ class Tr:
                 return f"(match {a} with | none => {b} | some v_ => if v_ = 0 then {b} else v_)", INT
         if isinstance(node, ast.Call):
             fn = self.key(node.func)
+            if fn in ("builtins.max", "builtins.min"):  # `import builtins` spelling of the same functions
+                fn = fn.split(".")[1]
             if fn in ("max", "min") and len(node.args) == 2 and not node.keywords:
                 a, ta = self.expr(node.args[0], env)
                 b, tb = self.expr(node.args[1], env)
@@ -206,6 +208,19 @@ class Tr:
                     return "False" if positive else "True"
                 return f"({self.lname(var)} = none)" if positive else f"({self.lname(var)} ≠ none)"
             terms = [node.left, *node.comparators]
+            if len(terms) == 2:
+                # `a OP b / c` with c a positive int literal (true division): translated as `a * c OP b`,
+                # exact over the integers (the float quotient is exact below 2**53)
+                l, r = terms
+                def _q(x):
+                    return (isinstance(x, ast.BinOp) and isinstance(x.op, ast.Div) and isinstance(x.right, ast.Constant)
+                            and type(x.right.value) is int and x.right.value > 0)
+                if _q(r) and not _q(l):
+                    c = ast.Constant(value=r.right.value)
+                    terms = [ast.BinOp(left=l, op=ast.Mult(), right=c), r.left]
+                elif _q(l) and not _q(r):
+                    c = ast.Constant(value=l.right.value)
+                    terms = [l.left, ast.BinOp(left=r, op=ast.Mult(), right=c)]
             vals = []
             for t in terms:
                 a, ta = self.expr(t, env)
@@ -265,6 +280,11 @@ class Tr:
                 raise Refuse(f"raise {name}")
             return pad + f"(.error Err.{ERRCLASS[name]})"
         if isinstance(s, ast.Assign):
+            if len(s.targets) > 1 and all(isinstance(t, ast.Name) for t in s.targets):
+                # a = b = e  (plain names): evaluate once, bind each name
+                first = ast.Assign(targets=[s.targets[0]], value=s.value)
+                more = [ast.Assign(targets=[t], value=ast.Name(id=s.targets[0].id, ctx=ast.Load())) for t in s.targets[1:]]
+                return self.block([first, *more, *rest], env, ind)
             if len(s.targets) != 1:
                 raise Refuse("multiple assignment targets")
             tgt = s.targets[0]
@@ -290,7 +310,8 @@ class Tr:
             env2[tgt.id] = t
             if t in (NONE, "Str"):
                 return self.block(rest, env2, ind)
-            return f"{pad}let {self.lname(tgt.id)} : {t} := {a}\n" + self.block(rest, env2, ind)
+            lt = "Int × Int × Int" if t == "slice3" else t
+            return f"{pad}let {self.lname(tgt.id)} : {lt} := {a}\n" + self.block(rest, env2, ind)
         if isinstance(s, ast.AugAssign):
             if not isinstance(s.target, ast.Name):
                 raise Refuse("augassign target")
@@ -360,6 +381,18 @@ def select(func, sel):
             if isinstance(n, ast.If) and ast.unparse(n.test) == sel[1]:
                 return [n]
         raise Refuse(f"branch `{sel[1]}` not found in {func.name}")
+    if kind == "between":
+        # top-level statements from the n-th one whose text starts with sel[1] up to (excluding) the next one
+        # whose text starts with sel[2]
+        nth = sel[3] if len(sel) > 3 else 0
+        starts = [i for i, n in enumerate(body) if ast.unparse(n).startswith(sel[1])]
+        if len(starts) <= nth:
+            raise Refuse(f"statement `{sel[1]}` (occurrence {nth}) not found in {func.name}")
+        i0 = starts[nth]
+        for i1 in range(i0 + 1, len(body)):
+            if ast.unparse(body[i1]).startswith(sel[2]):
+                return body[i0:i1]
+        raise Refuse(f"statement `{sel[2]}` not found after `{sel[1]}` in {func.name}")
     raise Refuse(f"selector {sel}")
 
 
